@@ -242,6 +242,39 @@ def run_case(tier, seed, index, spec=None):
         if not (fggs.FiniteFactor(D3, torch.tensor(wl, dtype=torch.float64).reshape(shape)) == f):
             V('factor-equality', 'factors over content-equal domains and equal weights compare unequal')
 
+    # ---------------- factor equality with genuinely patterned weights: decided by the dense tensors, not by the storage
+    if ar and all(shape):
+        types = [TP.type_of_size(rng, n) for n in shape]
+        vals_ = [0.0, 1.0, 2.5, 0.5]
+        pa = TP.gen_pattern(rng, types, lambda: rng.choice(vals_), rng.choice([0.0, 0.0, 1.0]), expand_p=0.0)
+        variants = [('repatterned', TP.gen_pattern(rng, types, lambda: rng.choice(vals_), pa['default'], expand_p=0.0)),
+                    ('other-default', dict(pa, default=pa['default'] + 5.0)),
+                    ('same-storage-other-pattern', dict(TP.gen_pattern(rng, types, lambda: 0.0, pa['default'], expand_p=0.0)))]
+        da = torch.tensor(A.densify(pa)[0], dtype=torch.float64).reshape(shape)
+        fa = C.call(lambda: fggs.FiniteFactor(D, TP.realise(I, pa, torch.float64)))
+        if fa['ok']:
+            fdense = fggs.FiniteFactor(D, da.clone())
+            obs['eq_checks'] += 1
+            if not (fa['value'] == fdense) or not (fdense == fa['value']) or (fa['value'] != fdense):
+                V('factor-equality:patterned', f'factor with weights {TP.depict(pa)} != factor with the same dense weights', domains=descr)
+            for vname, pb in variants:
+                if vname == 'same-storage-other-pattern':
+                    if pb['psizes'] != pa['psizes']:
+                        continue
+                    pb = dict(pb, physical=pa['physical'])      # identical physical storage under another pattern
+                db = torch.tensor(A.densify(pb)[0], dtype=torch.float64).reshape(shape)
+                fb = C.call(lambda: fggs.FiniteFactor(D, TP.realise(I, pb, torch.float64)))
+                if not fb['ok']:
+                    continue
+                expect = bool(torch.equal(da, db))
+                obs['eq_checks'] += 1
+                obs['eq_patterned_' + ('equal' if expect else 'unequal')] = obs.get('eq_patterned_' + ('equal' if expect else 'unequal'), 0) + 1
+                r1, r2, r3 = C.call(lambda: fa['value'] == fb['value']), C.call(lambda: fb['value'] == fa['value']), C.call(lambda: fa['value'] != fb['value'])
+                if not (r1['ok'] and r2['ok'] and r3['ok']):
+                    V('factor-equality:patterned:exception', f'== raised {(r1.get("exc") or r2.get("exc") or r3.get("exc"))} for {TP.depict(pa)} vs {TP.depict(pb)}', domains=descr)
+                elif bool(r1['value']) != expect or bool(r2['value']) != expect or bool(r3['value']) == expect:
+                    V(f'factor-equality:patterned:{vname}', f'{TP.depict(pa)} == {TP.depict(pb)} gives {r1["value"]}/{r2["value"]}, != gives {r3["value"]}; dense weights are {"equal" if expect else "different"}', domains=descr)
+
     # ---------------- binding
     for container in ('fgg', 'factorgraph'):
         X = fggs.FGG('S') if container == 'fgg' else fggs.FactorGraph()
